@@ -13,7 +13,8 @@ RULE = (
     "index/start/stop/step, loop count, subcircuit count), inside macro bodies both unshadowed and shadowed by a "
     "parameter; an override dictionary over a subset of the lets is drawn (integers for lets in integer positions) "
     "and kept only where the reference semantics says the program stays valid. Oracle: f = fill_in_let(c, ov) "
-    "contains no Constant anywhere (body, macro bodies, register sizes, alias bounds, loop/subcircuit counts); the "
+    "contains no Constant anywhere (body, macro bodies, register sizes, alias bounds, loop/subcircuit counts) and every "
+    "call of a macro in f is linked to f's own macro of that name; the "
     "independently extracted meaning of f with an EMPTY environment equals the reference meaning under ov (main "
     "body, and every macro body under probe arguments); macro parameters, macro set, native gates and pulse "
     "imports are preserved; parse_jaqal_string(text, expand_let=True, override_dict=ov) gives an equal circuit. "
@@ -97,6 +98,15 @@ def check(case, mode):
     left = extract.find_objects(f, lambda x: isinstance(x, Constant))
     if left:
         raise Violation("constant-left", f"{left[:3]}\n--- overrides {env}\n--- program:\n{text}")
+    # calls of macros are LINKED to definitions (analyses follow the link, not the name): every link
+    # in the result leads to the result's own, filled-in macro - not to the input's, which still
+    # holds the constants
+    from jaqalpaq.core.macro import Macro as _Macro
+    from jaqalpaq.core.gate import GateStatement as _GS
+
+    for g_ in extract.find_objects(f, lambda x: isinstance(x, _GS) and isinstance(x.gate_def, _Macro)):
+        if f.macros.get(g_.name) is not g_.gate_def:
+            raise Violation("stale-macro-link", f"a call of {g_.name} in the result is linked to a definition that is not the result's macro {g_.name}\n--- overrides {env}\n--- program:\n{text}")
     try:
         ex = extract.Extractor(f, {})
         m_f = ex.meaning()
